@@ -23,8 +23,8 @@ from spil.util.log import debug
 
 def glob2re(pat):
     """
-    Translate a shell PATTERN to a regular expression.
-    There is no way to quote meta-characters.
+    Translate a Sid search PATTERN to a regular expression.
+    Only "*" is a wildcard (it does not traverse "/"), every other character matches itself.
 
     Borrowed from here, with many thanks.
     https://stackoverflow.com/questions/27726545/python-glob-but-against-a-list-of-strings-rather-than-the-filesystem
@@ -41,27 +41,6 @@ def glob2re(pat):
         if c == '*':
             #res = res + '.*'
             res = res + '[^/]*'
-        elif c == '?':
-            #res = res + '.'
-            res = res + '[^/]'
-        elif c == '[':
-            j = i
-            if j < n and pat[j] == '!':
-                j = j+1
-            if j < n and pat[j] == ']':
-                j = j+1
-            while j < n and pat[j] != ']':
-                j = j+1
-            if j >= n:
-                res = res + '\\['
-            else:
-                stuff = pat[i:j].replace('\\','\\\\')
-                i = j+1
-                if stuff[0] == '!':
-                    stuff = '^' + stuff[1:]
-                elif stuff[0] == '^':
-                    stuff = '\\' + stuff
-                res = '%s[%s]' % (res, stuff)
         else:
             res = res + re.escape(c)
     return '(?ms)' + res + r'\Z'
